@@ -196,6 +196,17 @@ def run(mod, prop, tier, seed, budget_override):
     results, model_error = evaluate(mod, cases)
     if model_error:
         proof_problems.append('model driver failed: ' + model_error)
+    # confirm every suspicious case in isolation (fresh worker) before believing it: a watchdog
+    # firing on a loaded machine must not become a verdict
+    suspicious = [i for i, r in enumerate(results) if r['fails'] or r['mismatch']]
+    confirmed_away = 0
+    for i in suspicious[:40]:
+        again, _ = evaluate(mod, [results[i]['case']])
+        if not again[0]['fails'] and not again[0]['mismatch']:
+            confirmed_away += 1
+        results[i] = again[0]
+    if confirmed_away:
+        notes.append(f'{confirmed_away} first-pass anomalies did not reproduce in isolation')
 
     # ---- (4) classify
     known = {e['id']: e for e in lib.load_known(prop)}
@@ -250,10 +261,12 @@ def run(mod, prop, tier, seed, budget_override):
             res, _ = evaluate(mod, [cand], want_model=(kind == 'correspondence'))
             rr = res[0]
             if kind == 'impl-violation':
-                if not rr['fails']:
+                key = text.split(':')[0]
+                same = [f2 for f2 in rr['fails'] if f2.split(':')[0] == key]
+                if not same:
                     return False
                 if hasattr(mod, 'classify'):
-                    k2 = mod.classify(cand, rr['fails'][0])
+                    k2 = mod.classify(cand, same[0])
                     if k2 and k2 in known and known[k2].get('status') == 'known':
                         return False
                 return True
@@ -270,8 +283,13 @@ def run(mod, prop, tier, seed, budget_override):
             small = shrink(mod, r['case'], still_bad_factory(kind, f))
             res, _ = evaluate(mod, [small])
             rr = res[0]
+            if not rr['fails']:
+                # not reproducible in isolation after shrinking: keep the original case
+                small = r['case']
+                rr = r
             payload = {'property': prop, 'kind': 'impl-violation', 'what': (rr['fails'] or [f])[0],
                        'case': small, 'impl': rr['impl'], 'model': rr['model'],
+                       'original_case': r['case'] if small is not r['case'] else None,
                        'seed': seed, 'tier': tier,
                        'rerun': f'./check {prop} --replay <this file>'}
             p = lib.write_replay(prop, payload)
